@@ -10,7 +10,7 @@ static const int NNAMES = 8;
 static const uint32_t NEVER = UINT32_MAX;
 
 struct FOp {
-  std::string k;  // rewrite | advance | reload | reloadnow | dup | open | next | close | destroy | read
+  std::string k;  // rewrite | advance | reload | reloadnow | dup | open | next | close | destroy | read | rmfile | mkfile
   std::vector<long> a;
   IterSpec spec;
 };
@@ -115,7 +115,7 @@ static Case gen_case() {
   int n = pick(1, 6 + current_size() / 3);
   for (int i = 0; i < n; i++) {
     FOp p;
-    switch (weighted({16, 10, 8, 12, 8, 14, 10, 8, 3, 11})) {
+    switch (weighted({16, 10, 8, 12, 8, 14, 10, 8, 3, 11, 6})) {
       case 0: {
         p.k = "rewrite";
         p.a.push_back(pick(0, 1));
@@ -139,7 +139,8 @@ static Case gen_case() {
       case 6: p.k = "next"; p.a = {pick(0, 3), pick(1, 4)}; break;
       case 7: p.k = "close"; p.a = {pick(0, 3)}; break;
       case 8: p.k = "destroy"; p.a = {pick(0, 3)}; break;
-      default: p.k = "read"; p.a = {pick(0, 3)}; break;
+      case 9: p.k = "read"; p.a = {pick(0, 3)}; break;
+      default: p.k = chance(55) ? "rmfile" : "mkfile"; p.a = {pick(0, NTABLES - 1)}; break;
     }
     c.ops.push_back(p);
   }
@@ -200,16 +201,6 @@ static Result run_case(const Case &c) {
       versions.push_back(names);
     };
     write_version(c.initial, 0);
-    auto content = [&](size_t v, const Handle &h) {
-      std::map<bytes, bytes, BLess> m;
-      for (long n : versions[v])
-        if (n < NTABLES && passes((int)n, h.fnf, h.rdf))
-          for (auto &kv : table_content((int)n)) m[kv.first] += kv.second;
-      RefTable t;
-      for (auto &kv : m) t.e.push_back(kv);
-      return t;
-    };
-
     vc_now.tv_sec = 1000;
     vc_now.tv_nsec = 0;
     MergeClos mc;
@@ -234,16 +225,38 @@ static Result run_case(const Case &c) {
       h.alive = true;
       hs.push_back(h);
     }
-    // ---- tolerant model of the shared fileset
-    size_t L = 0;            // the loaded version is at least L (only meaningful once loaded)
-    bool loaded = false;     // a load is known to have happened
+    // ---- tolerant model of the shared fileset: a set of candidate states
+    // A candidate is (vn, el): the setfile version the library has noticed and the world epoch at which that version was
+    // loaded (the loaded set = names of version vn that existed as files at epoch el).  (-1,-1) = nothing loaded yet.
+    // A reload at a reload point is effective only if the setfile changed since it was last noticed.  At a point where a
+    // reload is REQUIRED every candidate takes the reload branch; where it is merely PERMITTED both branches are kept.
+    // Observations filter the set; an empty set is the violation.  While any iterator is open nothing may reload.
+    typedef std::pair<int, int> Cand;
+    std::set<Cand> cands = {Cand(-1, -1)};
     bool deferred_now = false;  // reload_now was called while iterators were open
-    long t_lastpoint = -1;   // second of the last op at which a reload could have happened (no iterators open)
+    long t_lastpoint = -1;      // second of the last op at which a reload could have happened (no iterators open)
     int total_open = 0;
-    std::set<size_t> frozen;  // candidate versions while iterators are open (all observations must agree on one of them)
-    bool saw_change_reload_read_other = false, iter_across_reloadnow = false;
+    bool saw_change_reload_read_other = false, iter_across_reloadnow = false, files_changed = false;
     int last_reload_handle = -1;
-    size_t version_at_last_forced = 0;
+    bool forced_reload_changed_something = false;
+    // world epochs
+    struct Snap {
+      int version;
+      unsigned exist;  // bit n: table file n exists
+    };
+    unsigned exist_now = (1u << NTABLES) - 1;
+    std::vector<Snap> snaps = {Snap{0, exist_now}};
+    auto new_epoch = [&]() { snaps.push_back(Snap{(int)versions.size() - 1, exist_now}); };
+    auto content = [&](const Cand &cd, const Handle &h) {
+      std::map<bytes, bytes, BLess> m;
+      if (cd.first >= 0)
+        for (long n : versions[(size_t)cd.first])
+          if (n < NTABLES && ((snaps[(size_t)cd.second].exist >> n) & 1) && passes((int)n, h.fnf, h.rdf))
+            for (auto &kv : table_content((int)n)) m[kv.first] += kv.second;
+      RefTable t;
+      for (auto &kv : m) t.e.push_back(kv);
+      return t;
+    };
 
     auto live = [&](long idx) -> int {
       std::vector<int> l;
@@ -260,29 +273,36 @@ static Result run_case(const Case &c) {
     };
     // called for every op that is a reload point for handle h (source op, explicit reload, iterator close)
     auto reload_point = [&](int h, bool now_forced) {
-      size_t U = versions.size() - 1;
       if (total_open > 0) {
         if (now_forced) deferred_now = true;
         return;  // nothing may reload
       }
-      bool must = now_forced || !loaded || deferred_now;
+      bool must = now_forced || deferred_now || cands.count(Cand(-1, -1)) > 0;
       long I = hs[(size_t)h].interval;
       if (!must && I >= 0 && t_lastpoint >= 0 && vc_now.tv_sec - t_lastpoint > I) must = true;
+      int curv = (int)versions.size() - 1, cure = (int)snaps.size() - 1;
+      std::set<Cand> next;
+      bool changed = false;
+      for (auto &cd : cands) {
+        Cand re = cd.first != curv ? Cand(curv, cure) : cd;  // an effective reload only when the setfile changed
+        if (re != cd) changed = true;
+        next.insert(re);
+        if (!must) next.insert(cd);
+      }
+      cands = next;
       if (must) {
-        if (U > L && last_reload_handle != h) version_at_last_forced = U;
-        L = U;
-        loaded = true;
         deferred_now = false;
-        last_reload_handle = h;
+        if (changed) {
+          forced_reload_changed_something = true;
+          last_reload_handle = h;
+        }
       }
       t_lastpoint = vc_now.tv_sec;
     };
-    // candidate versions for an observation made now through handle h
-    auto candidates = [&]() {
-      std::set<size_t> s;
-      if (total_open > 0 && !frozen.empty()) return frozen;
-      for (size_t v = L; v < versions.size(); v++) s.insert(v);
-      return s;
+    auto describe = [&](const std::set<Cand> &cs) {
+      std::string d;
+      for (auto &cd : cs) d += "(version " + std::to_string(cd.first) + " loaded at epoch " + std::to_string(cd.second) + ") ";
+      return d;
     };
 
     for (size_t oi = 0; oi < c.ops.size() && !r.fail; oi++) {
@@ -291,6 +311,22 @@ static Result run_case(const Case &c) {
       if (op.k == "rewrite") {
         std::vector<long> names(op.a.begin() + 1, op.a.end());
         write_version(names, (int)A(0));
+        new_epoch();
+      } else if (op.k == "rmfile" || op.k == "mkfile") {
+        int n = (int)(A(0) % NTABLES);
+        std::string p = dir + "/" + name_of(n), hidden = dir + "/.hidden-" + name_of(n);
+        bool ex = (exist_now >> n) & 1;
+        if (op.k == "rmfile" && ex) {
+          rename(p.c_str(), hidden.c_str());  // the name disappears; a reader that has the table mapped keeps it
+          exist_now &= ~(1u << n);
+          new_epoch();
+          files_changed = true;
+        } else if (op.k == "mkfile" && !ex) {
+          rename(hidden.c_str(), p.c_str());  // same content comes back under the same name (tables are immutable)
+          exist_now |= 1u << n;
+          new_epoch();
+          files_changed = true;
+        }
       } else if (op.k == "advance") {
         vc_now.tv_sec += A(0);
       } else if (op.k == "reload" || op.k == "reloadnow") {
@@ -316,13 +352,11 @@ static Result run_case(const Case &c) {
         int h = live(A(0));
         reload_point(h, false);
         IterSpec sp = op.k == "open" ? op.spec : IterSpec();
-        std::set<size_t> cands = candidates();
         struct mtbl_iter *it = open_iter(mtbl_fileset_source(hs[(size_t)h].fs), sp);
         if (!it) {
           r.failf("op %zu: fileset source returned a NULL iterator", oi);
           break;
         }
-        if (total_open == 0) frozen = cands;
         total_open++;
         hs[(size_t)h].open_iters++;
         OpenIt o;
@@ -331,38 +365,32 @@ static Result run_case(const Case &c) {
         o.spec = sp;
         o.alive = true;
         its.push_back(o);
-        if (version_at_last_forced && last_reload_handle >= 0 && last_reload_handle != h) saw_change_reload_read_other = true;
+        if (forced_reload_changed_something && last_reload_handle >= 0 && last_reload_handle != h) saw_change_reload_read_other = true;
         if (op.k == "read") {
-          // complete observation: drain and compare with every candidate version
+          // complete observation: drain and compare with every candidate
           KVs got = drain(it);
-          std::set<size_t> ok;
+          std::set<Cand> ok;
           std::string why;
-          for (size_t v : frozen) {
-            RefTable t = content(v, hs[(size_t)h]);
+          for (auto &cd : cands) {
+            RefTable t = content(cd, hs[(size_t)h]);
             KVs want = model_result(t, sp);
             bool same = got.size() == want.size();
             for (size_t i = 0; same && i < got.size(); i++) same = got[i].first == want[i].first && token_multiset_eq(got[i].second, want[i].second);
-            if (same) ok.insert(v);
+            if (same) ok.insert(cd);
             else if (why.empty()) why = diff_kvs(got, want);
           }
           if (ok.empty()) {
-            std::string vs;
-            for (size_t v : frozen) vs += std::to_string(v) + " ";
-            r.failf("op %zu: a new iterator on handle %d returned %zu entries that match no permitted setfile version (permitted: %s; latest version %zu; e.g. %s)", oi, h,
-                    got.size(), vs.c_str(), versions.size() - 1, why.c_str());
+            r.failf("op %zu: a new iterator on handle %d returned %zu entries that match no state a correct fileset can be in (permitted: %s; latest setfile version %zu; e.g. %s)",
+                    oi, h, got.size(), describe(cands).c_str(), versions.size() - 1, why.c_str());
             break;
           }
-          frozen = ok;
+          cands = ok;
           // close again
           its.back().alive = false;
-          mtbl_iter_destroy(&its.back().it);
           total_open--;
           hs[(size_t)h].open_iters--;
-          if (total_open == 0) {
-            L = std::max(L, *frozen.begin());
-            frozen.clear();
-            reload_point(h, false);  // closing an iterator is a reload point for its handle
-          }
+          reload_point(h, false);  // closing an iterator is a reload point for its handle
+          mtbl_iter_destroy(&its.back().it);
         }
       } else if (op.k == "next") {
         int i = live_it(A(0));
@@ -372,23 +400,23 @@ static Result run_case(const Case &c) {
           const uint8_t *kk, *vv;
           size_t lk, lv;
           mtbl_res res = mtbl_iter_next(o.it, &kk, &lk, &vv, &lv);
-          // must be consistent with at least one frozen candidate
-          std::set<size_t> ok;
-          for (size_t v : frozen) {
-            RefTable t = content(v, hs[(size_t)o.h]);
+          // must be consistent with at least one candidate (nothing reloads while the iterator is open)
+          std::set<Cand> ok;
+          for (auto &cd : cands) {
+            RefTable t = content(cd, hs[(size_t)o.h]);
             KVs want = model_result(t, o.spec);
             bool end = o.failed || o.returned >= want.size();
             if (res != mtbl_res_success) {
-              if (end) ok.insert(v);
+              if (end) ok.insert(cd);
             } else if (!end && want[o.returned].first == bytes((const char *)kk, lk) && token_multiset_eq(want[o.returned].second, bytes((const char *)vv, lv)))
-              ok.insert(v);
+              ok.insert(cd);
           }
           if (ok.empty()) {
             r.failf("op %zu: iterator %d (opened on handle %d, %s) step %zu %s, which is inconsistent with the snapshot it was opened on", oi, i, o.h, o.spec.ser().c_str(),
                     o.returned, res == mtbl_res_success ? ("returned key " + show(bytes((const char *)kk, lk))).c_str() : "failed");
             break;
           }
-          frozen = ok;
+          cands = ok;
           if (res == mtbl_res_success) o.returned++;
           else o.failed = true;
         }
@@ -399,10 +427,6 @@ static Result run_case(const Case &c) {
         o.alive = false;
         total_open--;
         hs[(size_t)o.h].open_iters--;
-        if (total_open == 0) {
-          L = std::max(L, frozen.empty() ? L : *frozen.begin());
-          frozen.clear();
-        }
         reload_point(o.h, false);
         mtbl_iter_destroy(&o.it);
       } else if (op.k == "destroy") {
@@ -424,6 +448,7 @@ static Result run_case(const Case &c) {
     if (saw_change_reload_read_other) r.tag("change_then_reload_via_one_handle_then_read_via_another");
     if (iter_across_reloadnow) r.tag("iterator_open_across_reload_now");
     if (versions.size() > 1) r.tag("setfile_rewritten");
+    if (files_changed) r.tag("table_file_removed_or_restored");
     r.counters["setfile_versions"] = (long long)versions.size();
   });
 }
